@@ -43,25 +43,55 @@ theorem mem_initTails (t : List α) : t ∈ initTails C winner ↔ InitTail C wi
     simp only [List.mem_filterMap]
     exact ⟨d, hd, by rw [if_neg (fun h => hdc h.symm)]⟩
 
-theorem initLoop_spec : ∀ (ts : List (List α)) (st st' : St α D),
-    initLoop asn C (cvrs.filterMap id) (nebTable asn C cvrs) ts st = some st' →
-    (∀ t ∈ ts, InitTail C winner t) → StoreOK asn C cvrs winner st.store → FInv st →
-    StoreOK asn C cvrs winner st'.store ∧ FInv st' ∧ st'.lb = st.lb ∧ (∀ π, SC st π → SC st' π) ∧
-    (∀ t ∈ ts, ∀ π, t <:+ π → SC st' π) := by
+theorem initLoop_spec (hC : C.candidates.Nodup) (hn : 2 ≤ C.candidates.length) :
+    ∀ (ts : List (List α)) (st : St α D) (r : Option (St α D)),
+    initLoop asn C (cvrs.filterMap id) (nebTable asn C cvrs) ts st = r →
+    (∀ t ∈ ts, InitTail C winner t) → StoreOK asn C cvrs winner st.store → FInv asn C cvrs winner st →
+    match r with
+    | none => BadLeaf asn C cvrs winner
+    | some st' =>
+      StoreOK asn C cvrs winner st'.store ∧ FInv asn C cvrs winner st' ∧ st'.lb = st.lb ∧
+      (∀ π, SC st π → SC st' π) ∧ (∀ t ∈ ts, ∀ π, t <:+ π → SC st' π) := by
   intro ts
   induction ts with
   | nil =>
-    intro st st' h _ hok hF
-    simp only [initLoop, Option.some.injEq] at h
+    intro st r h _ hok hF
+    simp only [initLoop] at h
     subst h
     exact ⟨hok, hF, rfl, fun _ h => h, by simp⟩
   | cons t ts ih =>
-    intro st st' h hts hok hF
+    intro st r h hts hok hF
     rw [initLoop] at h
     simp only at h
-    split at h
-    · cases h
-    · rename_i hcond
+    by_cases hcond : (!decide (C.candidates.length > 2) &&
+        (findBestAudit asn C (cvrs.filterMap id) (nebTable asn C cvrs) t).fst.isNone) = true
+    · rw [if_pos hcond] at h
+      subst h
+      simp only [Bool.and_eq_true, Bool.not_eq_true', decide_eq_false_iff_not, Option.isNone_iff_eq_none] at hcond
+      obtain ⟨hlen2, hbest⟩ := hcond
+      obtain ⟨d, c, rfl, hcw, hdc, hd, hc⟩ := hts _ List.mem_cons_self
+      -- the node that was not inserted, put into a store of its own
+      let newn : Node α D := Node.mk [d, c] none none false Diff.inf [] false
+      have hnew : Store.get ((#[] : Store α D).push newn) 0 = newn := Store.get_push_eq _ _
+      have hnok : NodeOK asn C cvrs winner ((#[] : Store α D).push newn) 0 := by
+        refine ⟨?_, ?_, ?_, ?_, ?_, ?_, ?_, ?_, ?_, ?_⟩
+        · rw [hnew]; simp [newn, hdc]
+        · rw [hnew]; intro y hy; simp only [newn, List.mem_cons, List.not_mem_nil, or_false] at hy
+          rcases hy with rfl | rfl <;> assumption
+        · rw [hnew]; simp [newn]
+        · rw [hnew]; exact ⟨[d], c, rfl, hcw⟩
+        · rw [hnew]; exact hbest.symm
+        · rw [hnew]
+          show Diff.inf = (findBestAudit asn C (cvrs.filterMap id) (nebTable asn C cvrs) [d, c]).2
+          rw [fba_estimate, hbest]
+        · rw [hnew]; intro h; cases h
+        · rw [hnew]; intro j hj; cases hj
+        · rw [hnew]; intro j hj; cases hj
+        · rw [hnew]; intro _; rfl
+      refine leaf_bad asn C cvrs winner hC hnok ?_ (by rw [hnew]) ?_
+      · rw [hnew]; show 2 = C.candidates.length; omega
+      · rw [hnew]; intro j hj; cases hj
+    · rw [if_neg hcond] at h
       generalize hnewn : (Node.mk t (findBestAudit asn C (cvrs.filterMap id) (nebTable asn C cvrs) t).fst
           none (decide (C.candidates.length > 2))
           (findBestAudit asn C (cvrs.filterMap id) (nebTable asn C cvrs) t).snd [] false : Node α D) = newn at h
@@ -95,25 +125,38 @@ theorem initLoop_spec : ∀ (ts : List (List α)) (st st' : St α D),
           · rw [hnew, g3]; intro j hj; cases hj
           · rw [hnew, g3]; intro j hj; cases hj
           · rw [hnew, g1]; intro _; rfl
-      have hF1 : FInv ({ st with store := st.store.push newn } : St α D) :=
+      have hF1 : FInv asn C cvrs winner ({ st with store := st.store.push newn } : St α D) :=
         hF.congr rfl (by show st.store.size ≤ (st.store.push newn).size; omega)
           (fun k hk => by
             show (Store.get (st.store.push newn) k).estimate = _ ∧ (Store.get (st.store.push newn) k).expandable = _
-            rw [hold k (hF.inRange k hk)]; exact ⟨rfl, rfl⟩) hF.lbFin
+            rw [hold k (hF.inRange k hk)]; exact ⟨rfl, rfl⟩) rfl
+      have hidlt : st.store.size < (st.store.push newn).size := by omega
       have hfin : (Store.get (st.store.push newn) st.store.size).expandable = false →
-          (Store.get (st.store.push newn) st.store.size).estimate ≠ Diff.inf := by
-        rw [hnew]
-        intro hexp hinf
-        apply hcond
-        rw [g4] at hexp
-        rw [hexp]
-        simp only [Bool.not_false, Bool.true_and]
-        rw [g5, fba_estimate] at hinf
-        cases hb : (findBestAudit asn C (cvrs.filterMap id) (nebTable asn C cvrs) [d, c]).1 with
-        | none => rfl
-        | some a => rw [hb] at hinf; cases hinf
-      have hF2 := hF1.insertNode st.store.size (by show st.store.size < (st.store.push newn).size; omega) hfin
-      obtain ⟨i1, i2, i3, i4, i5⟩ := ih _ st' h (fun t ht => hts t (List.mem_cons_of_mem _ ht)) hok1 hF2
+          (Store.get (st.store.push newn) st.store.size).estimate ≠ Diff.inf ∧
+          LeOPT asn C cvrs winner (Store.get (st.store.push newn) st.store.size).estimate := by
+        intro hexp
+        have hnk := hok1 st.store.size hidlt
+        refine ⟨?_, leaf_leOPT_root asn C cvrs winner hC hnk ?_ (by rw [hnew]; exact g3)⟩
+        · rw [hnew] at hexp ⊢
+          intro hinf
+          apply hcond
+          rw [g4] at hexp
+          rw [hexp]
+          simp only [Bool.not_false, Bool.true_and]
+          rw [g5, fba_estimate] at hinf
+          cases hb : (findBestAudit asn C (cvrs.filterMap id) (nebTable asn C cvrs) [d, c]).1 with
+          | none => rfl
+          | some a => rw [hb] at hinf; cases hinf
+        · rw [hnew] at hexp ⊢
+          rw [g4] at hexp
+          simp only [decide_eq_false_iff_not] at hexp
+          rw [g1]; show 2 = C.candidates.length; omega
+      have hF2 := hF1.insertNode st.store.size hidlt hfin
+      have hrec := ih _ r h (fun t ht => hts t (List.mem_cons_of_mem _ ht)) hok1 hF2
+      cases r with
+      | none => exact hrec
+      | some st' =>
+      obtain ⟨i1, i2, i3, i4, i5⟩ := hrec
       refine ⟨i1, i2, i3, ?_, ?_⟩
       · intro π hsc
         apply i4
@@ -148,18 +191,25 @@ theorem alt_initTail (hC : C.candidates.Nodup) (hn : 2 ≤ C.candidates.length) 
   subst hdc
   exact (List.nodup_append.1 hnd).2.2 d (by simp) d (by simp) rfl
 
-theorem init_inv (hC : C.candidates.Nodup) (hn : 2 ≤ C.candidates.length) (st0 : St α D)
-    (h : initLoop asn C (cvrs.filterMap id) (nebTable asn C cvrs) (initTails C winner) ⟨#[], [], none⟩ = some st0) :
-    Inv asn C cvrs winner st0 ∧ st0.lb = none := by
+theorem init_inv (hC : C.candidates.Nodup) (hn : 2 ≤ C.candidates.length) :
+    match initLoop asn C (cvrs.filterMap id) (nebTable asn C cvrs) (initTails C winner) ⟨#[], [], none⟩ with
+    | none => BadLeaf asn C cvrs winner
+    | some st0 => Inv asn C cvrs winner st0 ∧ st0.lb = none := by
   have hok0 : StoreOK asn C cvrs winner (#[] : Store α D) := fun id hid => by simp at hid
-  have hF0 : FInv (⟨#[], [], none⟩ : St α D) :=
-    ⟨by simp, by simp, List.Pairwise.nil, by intro h; cases h⟩
-  obtain ⟨i1, i2, i3, _, i5⟩ := initLoop_spec asn C cvrs winner _ _ st0 h
+  have hF0 : FInv asn C cvrs winner (⟨#[], [], none⟩ : St α D) :=
+    ⟨by simp, by simp, List.Pairwise.nil, (by intro h; cases h), (by intro x hx; cases hx), by simp,
+     List.Pairwise.nil⟩
+  have := initLoop_spec asn C cvrs winner hC hn _ _ _ rfl
     (fun t ht => (mem_initTails C winner t).1 ht) hok0 hF0
-  refine ⟨⟨i1, i2, ?_⟩, i3⟩
-  intro π hπ
-  obtain ⟨t, ht, hsuf⟩ := alt_initTail C winner hC hn hπ
-  exact i5 t ((mem_initTails C winner t).2 ht) π hsuf
+  cases hi : initLoop asn C (cvrs.filterMap id) (nebTable asn C cvrs) (initTails C winner) ⟨#[], [], none⟩ with
+  | none => rw [hi] at this; exact this
+  | some st0 =>
+    rw [hi] at this
+    obtain ⟨i1, i2, i3, _, i5⟩ := this
+    refine ⟨⟨i1, i2, ?_⟩, i3⟩
+    intro π hπ
+    obtain ⟨t, ht, hsuf⟩ := alt_initTail C winner hC hn hπ
+    exact i5 t ((mem_initTails C winner t).2 ht) π hsuf
 
 /-! ### at exit every frontier node carries an assertion -/
 
@@ -249,10 +299,6 @@ theorem dedupe_spec (hC : C.candidates.Nodup) (s : Store α D) : ∀ (ids : List
         · exact Or.inl ⟨z', hz', hc.trans hc'⟩
       · exact Or.inr ⟨i, List.mem_cons_of_mem _ hi, b, hb, hc⟩
 
-/-- the exit state of the main loop: invariant plus a non-expandable head -/
-def ExitState (st : St α D) : Prop :=
-  Inv asn C cvrs winner st ∧ ∃ te rest, st.fr = te :: rest ∧ (st.store.get te).expandable = false
-
 theorem exit_all_finite {st : St α D} (h : ExitState asn C cvrs winner st) :
     ∀ id ∈ st.fr, (st.store.get id).estimate ≠ Diff.inf := by
   obtain ⟨hI, te, rest, hfr, hne⟩ := h
@@ -334,23 +380,80 @@ theorem compute_cases {fuel : Nat} {as : List (Assertion α D)}
       · cases h
       · cases h
 
-/-- **Main soundness statement.** A non-empty result consists of true assertions of the family, excludes
-every alternative winner, and each returned assertion is (up to `rules_out`) the assertion of a node of the
-final frontier, whose state satisfies the loop invariant. -/
-theorem compute_sound (hC : C.candidates.Nodup) (hn : 2 ≤ C.candidates.length) {fuel : Nat}
-    {as : List (Assertion α D)} (h : computeRaireAssertions asn C cvrs winner fuel = Res.ok as)
-    (hne : as ≠ []) :
-    (∀ a ∈ as, Fam asn C cvrs a) ∧ Sufficient C.candidates winner as ∧
-    ∃ st, ExitState asn C cvrs winner st ∧
-      ∀ a ∈ as, ∃ i ∈ st.fr, ∃ b, (st.store.get i).best = some b ∧ core a = core b := by
-  rcases compute_cases asn C cvrs winner h with ⟨h1, _⟩ | ⟨st0, hi, ⟨h1, _⟩ | ⟨st, L, hm, hd, rfl⟩⟩
-  · exact absurd h1 hne
-  · exact absurd h1 hne
-  · obtain ⟨hI0, _⟩ := init_inv asn C cvrs winner hC hn st0 hi
-    have hE : ExitState asn C cvrs winner st := mainLoop_spec asn C cvrs winner hC fuel st0 st hm hI0
-    obtain ⟨p1, p2, p3⟩ := post_spec asn C cvrs winner hC hE hd
-    exact ⟨p1, p2, st, hE, p3⟩
+/-- at exit the estimate of every frontier node is below the largest difficulty of every sufficient
+set of true assertions (O2, O3 and O1 at the exit test) -/
+theorem exit_all_leOPT {st : St α D} (h : ExitState asn C cvrs winner st) :
+    ∀ i ∈ st.fr, LeOPT asn C cvrs winner (st.store.get i).estimate := by
+  obtain ⟨hI, te, rest, hfr, hne⟩ := h
+  have hte : LeOPT asn C cvrs winner (st.store.get te).estimate :=
+    hI.fr.nonexpOpt te (by rw [hfr]; exact List.mem_cons_self) hne
+  intro i hi
+  cases hexp : (st.store.get i).expandable with
+  | false => exact hI.fr.nonexpOpt i hi hexp
+  | true =>
+    rw [hfr] at hi
+    simp only [List.mem_cons] at hi
+    rcases hi with rfl | hi
+    · rw [hexp] at hne; cases hne
+    · have hp := hI.fr.sorted
+      rw [hfr] at hp
+      rcases (List.pairwise_cons.1 hp).1 i hi hexp with h' | h'
+      · exact hte.mono asn C cvrs winner h'
+      · exact hI.fr.leOPT_of_leLB h'
 
+/-- some alternative order exists when there are at least two candidates -/
+theorem exists_alt (hC : C.candidates.Nodup) (hn : 2 ≤ C.candidates.length) :
+    ∃ π, Alt C.candidates winner π := by
+  obtain ⟨c, hc, hcw⟩ : ∃ c ∈ C.candidates, c ≠ winner := by
+    cases hcs : C.candidates with
+    | nil => rw [hcs] at hn; simp at hn
+    | cons a l =>
+      cases l with
+      | nil => rw [hcs] at hn; simp at hn
+      | cons b l' =>
+        by_cases ha : a = winner
+        · refine ⟨b, by simp, ?_⟩
+          intro hb
+          rw [hcs] at hC
+          have := (List.nodup_cons.1 hC).1
+          apply this
+          rw [ha, ← hb]; simp
+        · exact ⟨a, by simp, ha⟩
+  refine ⟨C.candidates.erase c ++ [c], ?_, C.candidates.erase c, c, rfl, hcw⟩
+  exact List.perm_append_comm.trans (List.perm_cons_erase hc).symm
+
+/-- **Main statement about the result.** An empty result comes with an alternative order that no true
+assertion contradicts. A non-empty result consists of true assertions of the family, excludes every
+alternative winner, and the difficulty of each returned assertion is below the largest difficulty of every
+sufficient set of true assertions. -/
+theorem compute_spec (hC : C.candidates.Nodup) (hn : 2 ≤ C.candidates.length) {fuel : Nat}
+    {as : List (Assertion α D)} (h : computeRaireAssertions asn C cvrs winner fuel = Res.ok as) :
+    (as = [] → BadLeaf asn C cvrs winner) ∧
+    (as ≠ [] → (∀ a ∈ as, Fam asn C cvrs a) ∧ Sufficient C.candidates winner as ∧
+      ∀ a ∈ as, LeOPT asn C cvrs winner (Diff.fin a.difficulty)) := by
+  have hinit := init_inv asn C cvrs winner hC hn
+  rcases compute_cases asn C cvrs winner h with ⟨h1, hi⟩ | ⟨st0, hi, ⟨h1, hm⟩ | ⟨st, L, hm, hd, rfl⟩⟩
+  · rw [hi] at hinit
+    exact ⟨fun _ => hinit, fun hne => absurd h1 hne⟩
+  · rw [hi] at hinit
+    exact ⟨fun _ => mainLoop_spec asn C cvrs winner hC fuel st0 none hm hinit.1, fun hne => absurd h1 hne⟩
+  · rw [hi] at hinit
+    have hE : ExitState asn C cvrs winner st := mainLoop_spec asn C cvrs winner hC fuel st0 (some st) hm hinit.1
+    obtain ⟨p1, p2, p3⟩ := post_spec asn C cvrs winner hC hE hd
+    have hopt := exit_all_leOPT asn C cvrs winner hE
+    have hfin := exit_all_finite asn C cvrs winner hE
+    refine ⟨fun h0 => ?_, fun _ => ⟨p1, p2, ?_⟩⟩
+    · exfalso
+      obtain ⟨π, hπ⟩ := exists_alt C winner hC hn
+      obtain ⟨a, ha, _⟩ := p2 π hπ
+      rw [h0] at ha; cases ha
+    · intro a ha
+      obtain ⟨i, hi', b, hb, hc⟩ := p3 a ha
+      obtain ⟨b', hb', _, hest, _⟩ := node_assertion asn C cvrs winner hC (hE.1.ok i (hE.1.fr.inRange i hi'))
+        (hfin i hi')
+      rw [hb] at hb'; cases hb'
+      rw [(core_fields hc).2.2.2.2.2.2, ← hest]
+      exact hopt i hi'
 
 end Main
 end Shangrla.Raire
